@@ -274,13 +274,13 @@ theorem C01_send_frgOk (k0 : Kcp) (hf : Fresh k0) (ops : List Op) :
   have h := run_countOk ops _ (fresh_countOk k0 hf)
   exact ⟨h, fun G hG n hn => frgOk_of_log h G _ hG n hn⟩
 
-/-- **Full message-mode statement (NOT proved).**  In message mode (`stream = 0` at the writer) the
+/-- **Full message-mode statement.**  In message mode (`stream = 0` at the writer) the
 messages `B`'s reader has been given are a prefix of the messages `A.Send` accepted, each with its
-original boundaries.  Proved so far: the receiver half (`C01_msg_boundaries`, under `FrgOk`) and the
-byte-level statement `C01_core` (the concatenation of the messages read is a prefix of the
-concatenation of the messages accepted), and the sender's countdown invariant (`C01_send_frgOk`).
-Missing: `n ≤ |L|` for the reader in the composed system (the reader cannot have accepted a sequence
-number the writer has not numbered yet) and the grouping lemma (`accM` = grouping of `L ++ snd_queue`). -/
+original boundaries.  PROVED as `C01_core_msg` in `Props/C01Msg.lean` under the range hypothesis
+`A.log.length < 2^32` (strict; it implies the reader's bound: `C01_reader_behind`).  This `def` keeps
+the statement with the two non-strict bounds of `C01_core`; the only case it adds is a log of exactly
+2^32 entries, where the argument for "the reader never runs ahead of the writer" (two content
+functions that differ just behind the log) has no room. -/
 def C01_core_msg_full : Prop :=
   ∀ (kA kB : Kcp), Fresh kA → Fresh kB → kB.rcv_nxt = kA.snd_nxt → 0 < kA.mss.toNat → kA.stream = 0 →
     ∀ ops : List SOp,
